@@ -287,6 +287,7 @@ impl Next for Prec {
 //@   ret r
 //@   spec
         ensures r is Ok ==> wf(r->Ok_0.1) && top_rank(r->Ok_0.1) == 100,
+        r is Ok ==> pe_shape(r->Ok_0.1),
 //@   endspec
 //@ end
 //@ fn sylt-parser/src/expression.rs if_expression
@@ -294,6 +295,7 @@ impl Next for Prec {
 //@   ret r
 //@   spec
         ensures r is Ok ==> wf(r->Ok_0.1) && top_rank(r->Ok_0.1) == 100,
+        r is Ok ==> pe_shape(r->Ok_0.1),
 //@   endspec
 //@ end
 //@ fn sylt-parser/src/expression.rs case_expression
@@ -301,6 +303,7 @@ impl Next for Prec {
 //@   ret r
 //@   spec
         ensures r is Ok ==> wf(r->Ok_0.1) && top_rank(r->Ok_0.1) == 100,
+        r is Ok ==> pe_shape(r->Ok_0.1),
 //@   endspec
 //@ end
 //@ fn sylt-parser/src/expression.rs blob
@@ -308,6 +311,7 @@ impl Next for Prec {
 //@   ret r
 //@   spec
         ensures r is Ok ==> wf(r->Ok_0.1) && top_rank(r->Ok_0.1) == 100,
+        r is Ok ==> pe_shape(r->Ok_0.1),
 //@   endspec
 //@ end
 //@ fn sylt-parser/src/parser.rs type_assignable
@@ -315,23 +319,56 @@ impl Next for Prec {
 //@ end
 //@ fn sylt-parser/src/parser.rs assignable_call
 //@   mode assumed
+//@   ret r
+//@   spec
+    requires
+        pa_shape(callee),
+    ensures
+        r is Ok ==> pa_shape(r->Ok_0.1),
+//@   endspec
 //@ end
 //@ fn sylt-parser/src/parser.rs assignable_dot_or_variant
 //@   mode assumed
+//@   ret r
+//@   spec
+    requires
+        pa_shape(accessed),
+    ensures
+        r is Ok ==> pa_shape(r->Ok_0.1),
+//@   endspec
 //@ end
 
 // ---- the assignable family (verbatim; only panic-freedom and pass-through) ---------------------
 //@ fn sylt-parser/src/parser.rs assignable_index
 //@   props C07
 //@   attr #[verifier::exec_allows_no_decreases_clause]
+//@   ret r
+//@   spec
+    requires
+        pa_shape(indexed), //# C07 assignable_index.pre.shape
+    ensures
+        r is Ok ==> pa_shape(r->Ok_0.1), //# C07 assignable_index.result_shape_index_is_int_literal
+//@   endspec
 //@ end
 //@ fn sylt-parser/src/parser.rs sub_assignable
 //@   props C07
 //@   attr #[verifier::exec_allows_no_decreases_clause]
+//@   ret r
+//@   spec
+    requires
+        pa_shape(assignable), //# C07 sub_assignable.pre.shape
+    ensures
+        r is Ok ==> pa_shape(r->Ok_0.1), //# C07 sub_assignable.result_shape
+//@   endspec
 //@ end
 //@ fn sylt-parser/src/parser.rs assignable
 //@   props C07
 //@   attr #[verifier::exec_allows_no_decreases_clause]
+//@   ret r
+//@   spec
+    ensures
+        r is Ok ==> pa_shape(r->Ok_0.1), //# C07 assignable.result_shape
+//@   endspec
 //@ end
 
 // ---- the expression parser -------------------------------------------------------------------
@@ -365,10 +402,12 @@ impl Next for Prec {
         r is Ok ==> top_rank(r->Ok_0.1) >= rank(prec), //# C13 parse_precedence.result_at_least_prec
         r is Ok ==> binop_rank(r->Ok_0.0.tok()) < rank(prec), //# C13 parse_precedence.stops_below_prec
         r is Ok ==> binop_rank(r->Ok_0.0.tok()) <= top_rank(r->Ok_0.1), //# C13 parse_precedence.next_not_tighter
+        r is Ok ==> pe_shape(r->Ok_0.1), //# C07 parse_precedence.result_shape
 //@   endspec
 //@   loop 1
         invariant
             wf(expr), //# C13 parse_precedence.loop.wf
+            pe_shape(expr), //# C07 parse_precedence.loop.shape
             top_rank(expr) >= rank(prec), //# C13 parse_precedence.loop.rank
             binop_rank(ctx.tok()) <= top_rank(expr), //# C13 parse_precedence.loop.next_not_tighter
         ensures
@@ -381,6 +420,7 @@ impl Next for Prec {
 //@   ret r
 //@   spec
     ensures r is Ok ==> wf(r->Ok_0.1) && top_rank(r->Ok_0.1) == 100, //# C13 value.atom
+        r is Ok ==> pe_shape(r->Ok_0.1), //# C07 value.result_shape
 //@   endspec
 //@ end
 
@@ -390,6 +430,7 @@ impl Next for Prec {
 //@   ret r
 //@   spec
     ensures r is Ok ==> wf(r->Ok_0.1) && top_rank(r->Ok_0.1) == 100, //# C13 prefix.atom
+        r is Ok ==> pe_shape(r->Ok_0.1), //# C07 prefix.result_shape
 //@   endspec
 //@ end
 
@@ -402,6 +443,7 @@ impl Next for Prec {
         r is Ok ==> wf(r->Ok_0.1) && top_rank(r->Ok_0.1) == 100, //# C13 unary.atom_with_tight_operand
         r is Ok ==> (r->Ok_0.1.kind is Neg || r->Ok_0.1.kind is Not), //# C13 unary.node_kind
         r is Ok ==> (ctx.tok() is Minus <==> r->Ok_0.1.kind is Neg), //# C13 unary.minus_is_neg
+        r is Ok ==> pe_shape(r->Ok_0.1), //# C07 unary.result_shape
 //@   endspec
 //@ end
 
@@ -410,15 +452,23 @@ impl Next for Prec {
 //@   attr #[verifier::exec_allows_no_decreases_clause]
 //@   ret r
 //@   spec
+    requires pe_shape(*lhs), //# C07 arrow_call.pre.lhs_shape
     ensures r is Ok ==> wf(r->Ok_0.1) && top_rank(r->Ok_0.1) == 100, //# C13 arrow_call.atom
+        r is Ok ==> pe_shape(r->Ok_0.1), //# C07 arrow_call.result_shape
 //@   endspec
 //@   inner prepend_expresion
 //@   attr #[verifier::exec_allows_no_decreases_clause]
 //@   ret r
 //@   spec
+        requires pe_shape(lhs), pe_shape(rhs), //# C07 prepend.pre.shape
         ensures r is Ok ==> top_rank(r->Ok_0.1) == 100 && wf(r->Ok_0.1), //# C13 prepend.atom
+            r is Ok ==> pe_shape(r->Ok_0.1), //# C07 prepend.result_shape
 //@   endspec
 //@   endinner
+//@   ghost before
+//@| let span = ctx.span();
+        proof { reveal_with_fuel(pe_shape, 3); reveal_with_fuel(pa_shape, 3); }
+//@   endghost
 //@ end
 
 //@ fn sylt-parser/src/expression.rs infix
@@ -427,6 +477,7 @@ impl Next for Prec {
 //@   ret r
 //@   spec
     requires
+        pe_shape(*lhs), //# C07 infix.pre.lhs_shape
         wf(*lhs), //# C13 infix.pre.lhs_wf
         binop_rank(ctx.tok()) <= top_rank(*lhs), //# C13 infix.pre.op_not_tighter_than_lhs
     ensures
@@ -436,6 +487,7 @@ impl Next for Prec {
         r is Ok && binop_rank(ctx.tok()) < 0 ==> top_rank(r->Ok_0.1) == 100, //# C13 infix.postfix_is_atom
         r is Ok ==> node_matches(ctx.tok(), r->Ok_0.1, *lhs), //# C13 infix.node_matches_operator
         r is Ok && binop_rank(ctx.tok()) >= 0 ==> top_rank(rhs_of(r->Ok_0.1)) > binop_rank(ctx.tok()), //# C13 infix.right_operand_tighter
+        r is Ok ==> pe_shape(r->Ok_0.1), //# C07 infix.result_shape
 //@   endspec
 //@ end
 
@@ -445,6 +497,7 @@ impl Next for Prec {
 //@   ret r
 //@   spec
     ensures r is Ok ==> wf(r->Ok_0.1) && top_rank(r->Ok_0.1) == 100, //# C13 grouping.atom_inside_wf
+        r is Ok ==> pe_shape(r->Ok_0.1), //# C07 grouping_or_tuple.result_shape
 //@   endspec
 //@   rewrite rule:R-bor
 //@-                 is_tuple |= matches!(ctx.token(), T::Comma);
@@ -456,6 +509,7 @@ impl Next for Prec {
             !is_tuple ==> exprs.len() == 0 && !(ctx.tok() is Comma) && !(ctx.tok() is RightParen), //# C07 grouping.loop.nothing_parsed_yet
         invariant
             wf_all(exprs@), //# C13 grouping.loop.members_wf
+            forall|i: int| 0 <= i < exprs@.len() ==> pe_shape(#[trigger] exprs@[i]), //# C07 grouping.loop.members_shape
         ensures
             !is_tuple ==> exprs.len() == 1 || !(ctx.tok() is RightParen), //# C07 grouping.loop.exit_one_element_or_error
 //@   endloop
@@ -467,9 +521,11 @@ impl Next for Prec {
 //@   ret r
 //@   spec
     ensures r is Ok ==> wf(r->Ok_0.1) && top_rank(r->Ok_0.1) == 100, //# C13 list.atom_inside_wf
+        r is Ok ==> pe_shape(r->Ok_0.1), //# C07 list.result_shape
 //@   endspec
 //@   loop 1
         invariant wf_all(exprs@), //# C13 list.loop.members_wf
+            forall|i: int| 0 <= i < exprs@.len() ==> pe_shape(#[trigger] exprs@[i]), //# C07 list.loop.members_shape
 //@   endloop
 //@ end
 
@@ -481,6 +537,7 @@ impl Next for Prec {
     ensures
         r is Ok ==> wf(r->Ok_0.1), //# C13 expression.wf
         r is Ok ==> binop_rank(r->Ok_0.0.tok()) < 0, //# C13 expression.consumes_all_operators
+        r is Ok ==> pe_shape(r->Ok_0.1), //# C07 expression.result_shape
 //@   endspec
 //@ end
 
